@@ -826,6 +826,11 @@ def execute(sc):
     return execute_plan(sc)
 
 
+def classify(sc):
+    """Class label used by the kernel to stratify the sample it re-executes in another process environment (python -O)."""
+    return '%s/%s' % (sc['kind'], sc.get('clause'))
+
+
 def shrink(sc, v):
     def cp():
         return copy.deepcopy(sc)
